@@ -49,6 +49,7 @@ PeerInit(NP, N, spec) ==
     calls  |-> 0,                       \* ticks/polls since the last drain
     lastWaitCur |-> -1000,
     alive  |-> TRUE,
+    lastRes |-> "",                     \* result of the peer's last advance_frame
     mark   |-> -1000000,                \* current frame when the fault phase ended (C05)
     nadv   |-> 0 ]
 
@@ -85,7 +86,8 @@ InitRun(c, viol, stats, run) ==
 Stats0 == [ runs |-> 0, ticks |-> 0, advances |-> 0, resims |-> 0, loads |-> 0, maxDepth |-> 0,
             stalls |-> 0, predicted |-> 0, corrected |-> 0, specAdv |-> 0, events |-> 0,
             verified |-> 0, dropsTruth |-> 0, fills |-> 0, discInputs |-> 0, panics |-> 0,
-            notSync |-> 0, delivered |-> 0, dropped |-> 0, dupd |-> 0 ]
+            notSync |-> 0, delivered |-> 0, dropped |-> 0, dupd |-> 0, runsWithPlannedFault |-> 0,
+            progressChecked |-> 0 ]
 
 G0 == [ N |-> 0, viol |-> <<>>, stats |-> Stats0, run |-> 0 ]
 
@@ -382,7 +384,7 @@ TickSpec(gg, r) ==
           \o When(r.r = "E:NotSynchronized" /\ pe0.run, V("C12", r.n, "not-synchronized-while-running", <<p>>))
           \o When(r.r \notin {"E:NotSynchronized", "E:PredictionThreshold", "E:SpectatorTooFarBehind"},
                   V("PANIC", r.n, r.r, <<p>>))
-      pe2 == [pe1 EXCEPT !.cur = r.cur, !.run = r.run,
+      pe2 == [pe1 EXCEPT !.cur = r.cur, !.run = r.run, !.lastRes = r.r,
                          !.lossy = @ \/ r.evq >= MaxEventQueue,
                          !.stat = [h \in 0..gg.NP-1 |-> r.st[h+1]]]
   IN AddViol([gg EXCEPT !.pr[p] = pe2, !.stats.specAdv = @ + acc.nA, !.stats.ticks = @ + 1],
@@ -471,7 +473,11 @@ RECURSIVE ProgressV(_, _)
 ProgressV(gg, p) ==
   IF p >= gg.N THEN <<>>
   ELSE When(gg.pr[p].alive /\ gg.pr[p].cur - gg.pr[p].mark < gg.minProgress,
-            V("C05", 0, "session-did-not-resume-after-transient-fault", <<p, gg.pr[p].mark, gg.pr[p].cur>>))
+            IF gg.isSpec[p] /\ gg.pr[p].lastRes = "E:SpectatorTooFarBehind"
+            THEN \* the documented overrun of the 60-frame spectator ring (C06): the outage itself was
+                 \* longer than the ring, the spectator reports SpectatorTooFarBehind for good
+                 V("C05", 0, "spectator-overrun-after-transient-outage", <<p, gg.pr[p].mark, gg.pr[p].cur>>)
+            ELSE V("C05", 0, "session-did-not-resume-after-transient-fault", <<p, gg.pr[p].mark, gg.pr[p].cur>>))
        \o ProgressV(gg, p + 1)
 
 \* the code under test panicked in this call: a violation of the property being checked; the
@@ -492,8 +498,9 @@ Update(gg, r) ==
     [] a = "kill" -> [gg EXCEPT !.pr[r.p].alive = FALSE]
     [] a = "mark" -> [gg EXCEPT !.marked = TRUE, !.minProgress = r.min_progress,
                                 !.pr = [p \in 0..gg.N-1 |-> [gg.pr[p] EXCEPT !.mark = gg.pr[p].cur]]]
-    [] a = "end"  -> IF gg.N > 0 /\ gg.marked
-                     THEN AddViol(gg, ProgressV(gg, 0)) ELSE gg
+    [] a = "end"  -> LET g1 == IF Get(r, "faults_hit", 0) > 0 THEN Bump(gg, "runsWithPlannedFault", 1) ELSE gg
+                     IN IF g1.N > 0 /\ g1.marked
+                        THEN AddViol(Bump(g1, "progressChecked", 1), ProgressV(g1, 0)) ELSE g1
     [] a = "dlv"  -> Bump(gg, "delivered", 1)
     [] a = "drop" -> Bump(gg, "dropped", 1)
     [] a = "dup"  -> Bump(gg, "dupd", 1)
